@@ -17,13 +17,14 @@ var exitCalls = map[string]bool{"os.Exit": true, "log.Fatal": true, "log.Fatalf"
 	"(*log.Logger).Fatal": true, "(*log.Logger).Fatalf": true, "(*log.Logger).Fatalln": true, "(*log.Logger).Panic": true, "(*log.Logger).Panicf": true, "(*log.Logger).Panicln": true, "runtime.Goexit": true}
 
 func checkC15(rep *core.Report) {
+	c15Deadline = 0
 	rep.Explanation = "Decides the structure of the shutdown protocol: SIGINT and SIGTERM are registered on the channel main waits on; after the signal every protocol of the same list that was started is shut down under the WaitGroup and main returns only after Wait (exit status 0 follows from returning); each shutdown sets the very flag its receive loop polls under a constant read deadline; a work queue is closed only by its single sender after its sending loop (so no send on a closed channel for any schedule); IPFIX/NetFlow v9 shutdown reaches the cache dump with the configured file on every enabled path, the dump holds the shard locks, replaces the file and writes keys that survive JSON; no exit/fatal/panic call is reachable from any shutdown path. 'Within a few seconds' is timing and is not decided (the only waits are a constant 1 s sleep and a 1 s read deadline, recorded)."
 	rep.Assume("main returning yields exit status 0; signal.Notify delivers the registered signals on the channel")
 	prog := rep.Prog
 	r1 := rep.Rule("R15.1", "main: signals registered, every started protocol shut down and awaited", 6)
 	r2 := rep.Rule("R15.2", "shutdown sets the flag the receive loop polls; read deadline is constant", 8)
 	r3 := rep.Rule("R15.3", "channels are closed only by their sender after its sending loop (or have no senders)", 4)
-	r4 := rep.Rule("R15.4", "template-bearing protocols dump to the configured file on every enabled shutdown path", 2)
+	r4 := rep.Rule("R15.4", "template-bearing protocols dump to the configured file on every enabled shutdown path, after the grace period", 6)
 	r5 := rep.Rule("R15.5", "no exit/fatal/panic call reachable from shutdown", 4)
 	r6 := rep.Rule("R15.6", "workers leave their loop when the queue is closed", 4)
 	r7 := rep.Rule("R15.7", "the dump is taken under the shard locks, replaces the file, and its keys survive JSON (shared with C10/C11)", 4)
@@ -89,6 +90,33 @@ func checkC15(rep *core.Report) {
 		r4.Check(!bad, name+":dump-on-every-path", dump.Pos(), "every enabled path through shutdown passes the dump", "shutdown can return without dumping the template cache although the protocol is enabled: templates acknowledged before the signal are lost")
 		fld := fieldLoadName(dump.Common().Args[len(dump.Common().Args)-1])
 		r4.Check(strings.HasSuffix(fld, "TplCacheFile"), name+":dump-file", dump.Pos(), "dumps to Options."+fld, "the dump file is not the configured template cache file option")
+		// order: stop flag, then the grace period that lets the receive loop notice the flag (its read deadline) and the
+		// workers drain what was queued, then the dump
+		var flagStore *ssa.Store
+		var sleep *ssa.Call
+		allInstrs(sd, func(ins ssa.Instruction) {
+			switch x := ins.(type) {
+			case *ssa.Store:
+				if _, f, ok := core.FieldOf(x.Addr); ok && f.Name() == "stop" {
+					flagStore = x
+				}
+			case *ssa.Call:
+				if calleeName(x) == "time.Sleep" {
+					sleep = x
+				}
+			}
+		})
+		okOrder := flagStore != nil && sleep != nil && core.InstrDominates(flagStore, sleep) && core.InstrDominates(sleep, dump)
+		grace := int64(0)
+		if sleep != nil {
+			grace, _ = ssaConstInt(sleep.Common().Args[0])
+		}
+		need := c15Deadline
+		if need == 0 {
+			need = 1e9
+		}
+		r4.Check(okOrder && grace >= need, name+":dump-after-grace-period", dump.Pos(), "stop flag, then a grace period of at least the read deadline, then the dump",
+			"the template cache is dumped before the grace period that follows the stop flag has elapsed (or there is none of at least the receive loop's read deadline): datagrams already received or queued are decoded after the file was written, so templates the collector held at exit are missing from the file")
 	}
 	// ---- R15.5 ----
 	roots := append([]*ssa.Function{}, shutdowns...)
@@ -355,6 +383,9 @@ func checkStopFlag(r2 *core.RuleRun, p *pipeline, sd *ssa.Function) {
 					for v := range core.BackwardSlice(call.Common().Args[1], core.SliceOpts{}) {
 						if c, ok := ssaConstInt(v); ok && c > 0 {
 							dl = true
+							if c > c15Deadline {
+								c15Deadline = c
+							}
 						}
 					}
 				}
@@ -363,6 +394,9 @@ func checkStopFlag(r2 *core.RuleRun, p *pipeline, sd *ssa.Function) {
 	}
 	r2.Check(dl, name+":read-deadline", p.read.Pos(), "a constant read deadline is set before every read", "no constant read deadline before the socket read: an idle socket blocks the loop forever and the stop flag is never re-tested")
 }
+
+// c15Deadline: the largest constant read deadline (ns) found in the receive loops of this run.
+var c15Deadline int64
 
 func resolveLocalAddr(fn *ssa.Function, addr ssa.Value) ssa.Value { return core.AddrRoot(addr) }
 
